@@ -213,6 +213,8 @@ mod stream_run {
         pub out: OpOut,
         pub delivered: Vec<(u64, u64)>,
         pub failure_in_op: bool,
+        /// the only failure delivered during the op was a transient `Interrupted` seek
+        pub only_interrupted_seek: bool,
         pub failure_before: bool,
         pub io_events: u32,
         pub alloc: StreamStats,
@@ -232,9 +234,12 @@ mod stream_run {
         pub own_phdrs: Vec<crate::hdr::Phdr>,
     }
 
+    /// The "fixed few-KiB overhead" of C08's bound.
+    pub const ALLOC_SLACK: u64 = 16_384;
+
     /// The single-allocation bound of C08 for a stream of length `len`.
     pub fn alloc_bound(len: u64) -> usize {
-        (4u64.saturating_mul(len).saturating_add(8192)).min(usize::MAX as u64) as usize
+        (4u64.saturating_mul(len).saturating_add(ALLOC_SLACK)).min(usize::MAX as u64) as usize
     }
 
     /// Execute a scenario's history against `ElfStream<E, SimReader>`.
@@ -265,6 +270,7 @@ mod stream_run {
                 out,
                 delivered: s.delivered.clone(),
                 failure_in_op: s.failure_in_op,
+                only_interrupted_seek: s.failure_in_op && !s.hard_failure_in_op,
                 failure_before,
                 io_events: s.events_in_op,
                 alloc: alloc::stream_stats(),
